@@ -554,13 +554,50 @@ Proof. split; reflexivity. Qed.
 
 (** * The per-loader pipeline cache *)
 
+Lemma ckey_eqb_eq a b : ckey_eqb a b = true -> a = b.
+Proof.
+  destruct a as [[x|] n], b as [[y|] m]; unfold ckey_eqb; cbn; try discriminate;
+    intros H; try (apply andb_true_iff in H; destruct H as [H1 H2]; apply String.eqb_eq in H1);
+    try apply String.eqb_eq in H; try apply String.eqb_eq in H2; congruence.
+Qed.
+
 Lemma cache_find_in l key c d : cache_find l key c = Some d -> In (l, key, d) c.
 Proof.
   induction c as [|[[l' k'] d'] r IH]; cbn; [discriminate|].
-  destruct ((l =? l') && (key =? k')) eqn:E.
+  destruct ((l =? l') && ckey_eqb key k') eqn:E.
   - intros H. inversion H; subst. apply andb_true_iff in E. destruct E as [E1 E2].
-    apply String.eqb_eq in E1, E2. subst. left. reflexivity.
+    apply String.eqb_eq in E1. apply ckey_eqb_eq in E2. subst. left. reflexivity.
   - intros H. right. apply IH. exact H.
+Qed.
+
+(** what the key forgets: [None] and [''] both become "no parent", and a [str] parent and a
+    [Path] parent with the same text share a key.  Nothing else is identified ... *)
+Theorem cache_key_faithful parent name parent' name' :
+  cache_key parent name = cache_key parent' name' ->
+  name = name' /\ p_truthy parent = p_truthy parent' /\
+  (p_truthy parent = true -> p_str parent = p_str parent').
+Proof.
+  unfold cache_key. destruct (p_truthy parent), (p_truthy parent'); intros H; inversion H;
+    repeat split; auto; discriminate.
+Qed.
+
+(** ... and the look-up reads exactly that much of the parent: requests with the same key
+    search the same locations *)
+Lemma search_locations_key e parent parent' :
+  p_truthy parent = p_truthy parent' ->
+  (p_truthy parent = true -> p_str parent = p_str parent') ->
+  search_locations e parent = search_locations e parent'.
+Proof.
+  unfold search_locations, parent_locs. intros Ht Hs. rewrite <- Ht.
+  destruct (p_truthy parent); [rewrite (Hs eq_refl)|]; reflexivity.
+Qed.
+
+Theorem same_key_same_lookup e parent name parent' name' :
+  cache_key parent name = cache_key parent' name' ->
+  get_pipeline_path e name parent = get_pipeline_path e name' parent'.
+Proof.
+  intros H. destruct (cache_key_faithful _ _ _ _ H) as (-> & Ht & Hs).
+  unfold get_pipeline_path. rewrite (search_locations_key e parent parent' Ht Hs). reflexivity.
 Qed.
 
 (** every entry was produced by a real load for SOME request with that key *)
@@ -569,22 +606,18 @@ Definition cache_genuine (e : env) (c : pcache) : Prop :=
     exists k name parent st st', key = cache_key parent name /\
                                  load_pipeline e st l k name parent = Ok (st', d).
 
-(** no other request shares the key of (name, parent) — what the key format cannot ensure *)
-Definition collision_free (e : env) (c : pcache) (name : string) (parent : pyparent) : Prop :=
-  forall l key d, In (l, key, d) c -> key = cache_key parent name ->
-    forall name' parent', key = cache_key parent' name' ->
-      get_pipeline_path e name' parent' = get_pipeline_path e name parent.
-
-Theorem cached_lookup_partial e st l k name parent st' d :
-  cache_genuine e (s_cache st) -> collision_free e (s_cache st) name parent ->
+(** the full statement: a look-up through the cache returns the file an uncached look-up of
+    the same (parent, name) request finds *)
+Theorem cached_lookup e st l k name parent st' d :
+  cache_genuine e (s_cache st) ->
   get_pipeline e st l k name parent = Ok (st', d) ->
   get_pipeline_path e name parent = Ok (d_file d).
 Proof.
-  unfold get_pipeline. intros Hg Hc.
+  unfold get_pipeline. intros Hg.
   destruct (cache_find l (cache_key parent name) (s_cache st)) as [d0|] eqn:E.
   - intros H. inversion H; subst. apply cache_find_in in E.
     destruct (Hg _ _ _ E) as (k' & name' & parent' & s1 & s2 & Hk & Hl).
-    rewrite <- (Hc _ _ _ E eq_refl name' parent' Hk).
+    rewrite (same_key_same_lookup e parent name parent' name' Hk).
     eapply load_pipeline_path. exact Hl.
   - destruct (load_pipeline e (s_sys st) l k name parent) as [[s2 d2]| |] eqn:El; cbn; try discriminate.
     intros H. inversion H; subst. eapply load_pipeline_path. exact El.
@@ -602,36 +635,6 @@ Proof.
     intros H. inversion H; subst. cbn. intros l' key' d' [Hin|Hin].
     + inversion Hin; subst. exists k, name, parent, (s_sys st), s2. auto.
     + apply Hg. exact Hin.
-Qed.
-
-(** the witness: a directory [/x+a] next to [/x], pipelines [a+b] and [b] *)
-Definition wit_env : env :=
-  mk_env "/cwd" "pipelines" "/blt" ["/x/a+b.yaml"; "/x+a/b.yaml"]
-         ["/"; "/x"; "/x+a"; "/cwd"; "/x/a+b.yaml"; "/x+a/b.yaml"].
-
-Definition wit_def : pdef :=
-  {| d_file := "/x/a+b.yaml"; d_is_file_info := true; d_info := file_info "/x/a+b.yaml" |}.
-
-Definition wit_state : state :=
-  {| s_sys := add_sys_path wit_env sys0 (PPath "/x");
-     s_cache := [(FILE_LOADER, "/x+a+b", wit_def)] |}.
-
-Lemma wit_genuine : cache_genuine wit_env (s_cache wit_state).
-Proof.
-  intros l key d [H|[]]. inversion H; subst.
-  exists LFile, "a+b", (PPath "/x"), sys0, (add_sys_path wit_env sys0 (PPath "/x")).
-  split; reflexivity.
-Qed.
-
-Theorem cached_lookup_refuted :
-  exists e st l k name parent st' d,
-    cache_genuine e (s_cache st) /\
-    get_pipeline e st l k name parent = Ok (st', d) /\
-    get_pipeline_path e name parent = Ok "/x+a/b.yaml" /\
-    d_file d = "/x/a+b.yaml".
-Proof.
-  exists wit_env, wit_state, FILE_LOADER, LFile, "b", (PPath "/x+a"), wit_state, wit_def.
-  split; [exact wit_genuine|]. repeat split; reflexivity.
 Qed.
 
 (** * Invariants of a whole run *)
